@@ -249,6 +249,7 @@ pub fn doc(path: &str, format: Format, tests: Vec<Test>) -> Doc {
         append: vec![],
         tests,
         main: true,
+        shell: None,
         raw: None,
     }
 }
@@ -311,6 +312,19 @@ pub fn fate_catalogue() -> Vec<(&'static str, Plan)> {
         ("wrong-output", Plan::new(Fate::WrongOutput)),
         ("wrong-code-and-output", Plan::new(Fate::WrongCodeAndOutput { code: 9 })),
         ("code-255", Plan::new(c(255, Some(255), false))),
+        ("code-128-unexpected", Plan::new(c(128, None, false))),
+        ("code-200-exit", Plan::new(c(200, Some(200), true))),
+        ("code-137-expected-9", Plan::new(c(137, Some(9), false))),
+        ("pass-silent", {
+            let mut p = Plan::new(Fate::Pass);
+            p.lines = 0;
+            p
+        }),
+        ("wrong-code-silent", {
+            let mut p = Plan::new(c(2, None, false));
+            p.lines = 0;
+            p
+        }),
         ("skip-default", Plan::new(c(80, None, false))),
         ("skip-default-exit", Plan::new(c(80, None, true))),
         ("skip-default-expected-80", Plan::new(c(80, Some(80), false))),
@@ -483,6 +497,10 @@ pub fn lane_timing(tier: Tier, seed: u64) -> Vec<Scenario> {
         Absent,
         Shorter,
         Longer,
+        /// the same "shorter" limit, but given in the document's `defaults`
+        ShorterInDefaults,
+        /// 50 days: more milliseconds than fit in 32 bits
+        Huge,
     }
     #[derive(Clone, Copy, Debug, PartialEq)]
     enum W {
@@ -495,7 +513,7 @@ pub fn lane_timing(tier: Tier, seed: u64) -> Vec<Scenario> {
     }
     for script in [false, true] {
         for dl in [DocLim::Absent, DocLim::Zero, DocLim::ShortFront, DocLim::ShortCli, DocLim::HugeCli] {
-            for tl in [TestLim::Absent, TestLim::Shorter, TestLim::Longer] {
+            for tl in [TestLim::Absent, TestLim::Shorter, TestLim::Longer, TestLim::ShorterInDefaults, TestLim::Huge] {
                 if script && tl != TestLim::Absent {
                     continue;
                 }
@@ -512,7 +530,8 @@ pub fn lane_timing(tier: Tier, seed: u64) -> Vec<Scenario> {
                             let doc_ns: Option<u64> = match dl {
                                 DocLim::Absent => Some(900 * SEC),
                                 DocLim::Zero => None,
-                                DocLim::ShortFront | DocLim::ShortCli => Some(4 * SEC),
+                                DocLim::ShortFront => Some(if script && tier == Tier::Cli { 4 * SEC } else { 4500 * MS }),
+                                DocLim::ShortCli => Some(4 * SEC),
                                 DocLim::HugeCli => Some(7200 * SEC),
                             };
                             // the tests before the slow one take 1 s each
@@ -530,7 +549,11 @@ pub fn lane_timing(tier: Tier, seed: u64) -> Vec<Scenario> {
                             let remaining = doc_ns.map(|d| d.saturating_sub(before + wait_ns));
                             let test_ns: Option<u64> = match tl {
                                 TestLim::Absent => None,
-                                TestLim::Shorter => Some(remaining.map(|r| (r / 2).max(500 * MS)).unwrap_or(2 * SEC).min(2 * SEC)),
+                                // (fractional on purpose: 1.7 s, not 2 s)
+                                TestLim::Shorter | TestLim::ShorterInDefaults => {
+                                    Some(remaining.map(|r| (r / 2).max(500 * MS)).unwrap_or(1700 * MS).min(1700 * MS))
+                                }
+                                TestLim::Huge => Some(50 * 86_400 * SEC),
                                 TestLim::Longer => Some(remaining.map(|r| r + 5 * SEC).unwrap_or(5 * SEC)),
                             };
                             let bite = match (test_ns, remaining) {
@@ -567,7 +590,9 @@ pub fn lane_timing(tier: Tier, seed: u64) -> Vec<Scenario> {
                                         _ => Fate::Slow { ns: dur_ns },
                                     };
                                     let mut p = Plan::new(fate);
-                                    p.cfg.timeout_ns = test_ns;
+                                    if tl != TestLim::ShorterInDefaults {
+                                        p.cfg.timeout_ns = test_ns;
+                                    }
                                     match wait {
                                         W::None => {}
                                         W::Dur => p.cfg.wait = Some(Wait { timeout_ns: wait_ns, path: None }),
@@ -596,6 +621,10 @@ pub fn lane_timing(tier: Tier, seed: u64) -> Vec<Scenario> {
                             let format = if script && tier == Tier::Cli { Format::Cram } else { Format::Md };
                             let path = if format == Format::Cram { "timing.t" } else { "timing.md" };
                             let mut d = doc(path, format, tests);
+                            if tl == TestLim::ShorterInDefaults {
+                                // applies to every test case of the document; the others are fast
+                                d.defaults.timeout_ns = test_ns;
+                            }
                             let mut cli = Cli::default();
                             match dl {
                                 DocLim::Absent => {}
@@ -610,7 +639,7 @@ pub fn lane_timing(tier: Tier, seed: u64) -> Vec<Scenario> {
                                     if format == Format::Cram {
                                         cli.timeout_seconds = Some(4)
                                     } else {
-                                        d.total_timeout_ns = Some(4 * SEC)
+                                        d.total_timeout_ns = Some(4500 * MS)
                                     }
                                 }
                                 DocLim::HugeCli => cli.timeout_seconds = Some(7200),
@@ -667,6 +696,12 @@ pub fn hostile_tokens() -> Vec<&'static str> {
         "exec1",
         "\\",
         "'\"`$(",
+        "# trailing comment",
+        "cat <<EOT",
+        "EOT",
+        "exit",
+        "\t",
+        "  ",
     ]
 }
 
@@ -811,7 +846,7 @@ pub fn lane_bytes(seed: u64) -> Vec<Scenario> {
         }
         // hostile text inside the expression
         for tok in hostile_tokens() {
-            for place in 0..3u32 {
+            for place in 0..5u32 {
                 let mut sim = base_sim(g.rng.next_u64());
                 let mut tests = vec![];
                 for k in 0..2 {
@@ -824,7 +859,10 @@ pub fn lane_bytes(seed: u64) -> Vec<Scenario> {
                     let expr = match place {
                         0 => format!("vsim-cmd @vs:{}@ echo '{}' @ve:{}@", nonce, tok, nonce),
                         1 => format!("vsim-cmd @vs:{}@ first\n{}\nlast @ve:{}@", nonce, tok, nonce),
-                        _ => format!("vsim-cmd @vs:{}@ {}{} @ve:{}@", nonce, tok, tok, nonce),
+                        2 => format!("vsim-cmd @vs:{}@ {}{} @ve:{}@", nonce, tok, tok, nonce),
+                        // the token is the very end (or the very start) of the expression
+                        3 => format!("vsim-cmd @vs:{}@ run @ve:{}@ {}", nonce, nonce, tok),
+                        _ => format!("{} vsim-cmd @vs:{}@ run @ve:{}@", tok.trim_start(), nonce, nonce),
                     };
                     tests.push(Test {
                         title: format!("H {}", nonce),
